@@ -756,6 +756,18 @@ pub fn fault_trace(h: &History) -> Vec<String> {
     v
 }
 
+/// How many consecutive polls without any observable progress make a quiescent point in a build whose
+/// runner wakes itself on every poll (`tracing` feature): far more than the longest chain of internal
+/// yields (one span-close notification is handled per poll: at most one per scenario in flight).
+pub fn quiesce_polls_for(plan: &Plan) -> u32 {
+    if cfg!(feature = "tracing") {
+        let n: usize = plan.features.iter().map(|f| f.scenarios.len() + f.rules.iter().map(|r| r.scenarios.len()).sum::<usize>()).sum();
+        200 + 8 * (3 * n as u32)
+    } else {
+        0
+    }
+}
+
 pub fn build_name() -> &'static str {
     if cfg!(feature = "tracing") { "tracing" } else { "plain" }
 }
